@@ -51,7 +51,7 @@ var (
 // which run after the informer store reports synced) reflects every ResourceClaim of the store. A production
 // scheduler has this race once, at start-up; the harness starts a cache per cycle and must not turn it into
 // a source of findings.
-func waitDRASynced(c cache.Cache, s *Store) {
+func waitDRASynced(c cache.Cache, s *Store, warm bool) {
 	want := map[string]bool{}
 	for _, rc := range s.Claims() {
 		want[rc.Namespace+"/"+rc.Name] = rc.Status.Allocation != nil
@@ -64,6 +64,31 @@ func waitDRASynced(c cache.Cache, s *Store) {
 		return
 	}
 	mgr := k8sPlugins.FrameworkHandle.SharedDRAManager()
+	if warm {
+		// A process that already ran cycles holds assumed (in-memory) claim states of its last session, which its DRA
+		// plugin resets itself when the next session opens - the harness must not touch them. What has to be awaited
+		// is that the tracker's informer handler has processed every claim event of the store. One informer delivers
+		// its events to a handler in order, so a sentinel claim created now is seen by the tracker only after all
+		// earlier claim writes; it is deleted again (and awaited to be gone) before the session opens.
+		s.serial++
+		name := fmt.Sprintf("verif-sync-%d", s.serial)
+		sentinel := &resourceapi.ResourceClaim{ObjectMeta: metav1.ObjectMeta{Name: name, Namespace: Namespace, ResourceVersion: "1", UID: types.UID(name)}}
+		if err := s.Kube.Tracker().Add(sentinel); err != nil {
+			return
+		}
+		seen := func() bool {
+			_, err := mgr.ResourceClaims().Get(Namespace, name)
+			return err == nil
+		}
+		for i := 0; i < 300000 && !seen(); i++ {
+			time.Sleep(time.Millisecond)
+		}
+		_ = s.Kube.Tracker().Delete(claimGVR, Namespace, name)
+		for i := 0; i < 300000 && seen(); i++ {
+			time.Sleep(time.Millisecond)
+		}
+		return
+	}
 	for i := 0; i < 50000; i++ {
 		ok := false
 		if cl, err := mgr.ResourceClaims().List(); err == nil && len(cl) == len(want) {
@@ -132,6 +157,11 @@ type Store struct {
 	// pods deleted gracefully: name -> cycles left before the kubelet model removes them
 	linger map[string]int
 	serial int
+	// Persistent: one scheduler process (cache, informers, in-process state) serves all cycles (process.go)
+	Persistent bool
+	proc       *schedProc
+	claimSeen  map[string]string
+	rvCounter  int
 }
 
 func NewStore(o *Objects, now time.Time) *Store {
@@ -480,6 +510,8 @@ type CycleRecord struct {
 	FailedPodDeletes  []string
 	Duration          time.Duration
 	ActionCalls       map[string][2]int // action -> [first call index, end)
+	Model             *World            // the world model at the start of this cycle when API mutations preceded it (nil = the world as generated)
+	NotCaughtUp       bool              // persistent mode: the informers did not catch up with the store in time (treated like Starved)
 	Shares            map[string]QShare // per queue, as reported by the session after OpenSession (Options.CaptureShares)
 }
 
@@ -561,7 +593,7 @@ func schedulerConfig(c *Config) (*conf.SchedulerConfiguration, *conf.SchedulerPa
 // RunCycle runs one full scheduler cycle (fresh cache = scheduler restart) against the store.
 func RunCycle(s *Store, cfg *Config, sc *CycleScript, idx int, opt *Options) *CycleRecord {
 	initScheduler()
-	if idx > 0 {
+	if idx > 0 && !s.Persistent {
 		s.Refresh()
 	}
 	rec := &CycleRecord{Index: idx, Before: TakeSnapshot(s), ActionCalls: map[string][2]int{}}
@@ -570,6 +602,7 @@ func RunCycle(s *Store, cfg *Config, sc *CycleScript, idx int, opt *Options) *Cy
 	start := time.Now()
 
 	done := make(chan struct{})
+	begun := make(chan struct{})
 	var rc *recordingCache
 	stopCh := make(chan struct{})
 	go func() {
@@ -579,16 +612,32 @@ func RunCycle(s *Store, cfg *Config, sc *CycleScript, idx int, opt *Options) *Cy
 				rec.Panic = fmt.Sprintf("%v\n%s", r, debug.Stack())
 			}
 		}()
-		c := cache.New(&cache.SchedulerCacheParams{
-			KubeClient: s.Kube, KAISchedulerClient: s.Kai, SchedulerName: params.SchedulerName,
-			NodePoolParams: params.PartitionParams, FullHierarchyFairness: params.FullHierarchyFairness,
-			AllowConsolidatingReclaim: params.AllowConsolidatingReclaim, NumOfStatusRecordingWorkers: params.NumOfStatusRecordingWorkers,
-			DiscoveryClient: s.Kube.Discovery(),
-		})
-		c.Run(stopCh)
-		time.Sleep(3 * time.Millisecond)
-		c.WaitForCacheSync(stopCh)
-		waitDRASynced(c, s)
+		var c cache.Cache
+		warm := s.Persistent && s.proc != nil
+		if s.Persistent && s.proc != nil {
+			c = s.proc.cache
+			if !waitCaughtUp(c, s, cfg.Pool) {
+				rec.Starved, rec.NotCaughtUp = true, true
+				return
+			}
+		} else {
+			c = cache.New(&cache.SchedulerCacheParams{
+				KubeClient: s.Kube, KAISchedulerClient: s.Kai, SchedulerName: params.SchedulerName,
+				NodePoolParams: params.PartitionParams, FullHierarchyFairness: params.FullHierarchyFairness,
+				AllowConsolidatingReclaim: params.AllowConsolidatingReclaim, NumOfStatusRecordingWorkers: params.NumOfStatusRecordingWorkers,
+				DiscoveryClient: s.Kube.Discovery(),
+			})
+			runStop := stopCh
+			if s.Persistent {
+				s.proc = &schedProc{cache: c, stop: make(chan struct{})}
+				runStop = s.proc.stop
+			}
+			c.Run(runStop)
+			time.Sleep(3 * time.Millisecond)
+			c.WaitForCacheSync(runStop)
+		}
+		waitDRASynced(c, s, warm)
+		close(begun) // cache ready: from here on CPU time is the scheduler's own
 		rc = &recordingCache{Cache: c, failEvictCall: sc.FailEvictCall}
 		ssn, err := framework.OpenSession(rc, schedConf, params, fmt.Sprintf("c%d", idx), mux)
 		if err != nil {
@@ -661,6 +710,17 @@ watch:
 			break watch
 		case <-tick.C:
 			now := processCPU()
+			select {
+			case <-begun:
+			default:
+				// still building / catching up the cache (harness work, polling included): not the scheduler's CPU
+				startCPU, lastCPU, lastAdvance = now, now, time.Now()
+				if time.Since(start) > 30*time.Minute {
+					rec.Starved = true
+					break watch
+				}
+				continue
+			}
 			if now-startCPU > cpuBudget {
 				rec.Hung = true
 				rec.HangKind = fmt.Sprintf("spinning: %v of CPU consumed without finishing (a typical cycle needs 10-50 ms)", (now - startCPU).Round(time.Second))
@@ -993,14 +1053,25 @@ type History struct {
 func Run(w *World, opt *Options) *History {
 	now := time.Now()
 	store := NewStore(w.Build(now), now)
+	store.Persistent = w.PersistentScheduler
+	defer store.Close()
 	h := &History{World: w}
+	mutated := w.HasMutations()
 	for i := range w.Cycles {
 		rec := RunCycle(store, &w.Config, &w.Cycles[i], i, opt)
+		if mutated {
+			rec.Model = w.At(i)
+		}
 		h.Cycles = append(h.Cycles, rec)
 		if rec.Hung || rec.Starved || rec.Panic != "" {
 			break
 		}
+		if i == 0 {
+			store.BumpClaimVersions() // remember the initial content
+		}
 		EnvStep(store, &w.Cycles[i], i, rec)
+		ApplyMutations(store, &w.Cycles[i])
+		store.BumpClaimVersions()
 	}
 	return h
 }
